@@ -6,7 +6,8 @@
    kicks raised at arbitrary moments.  All interleavings are covered: the theorems
    quantify over every reachable state (set computed and checked closed in Coq).
    The real daemon is forced through the same interleavings by family "race". *)
-From VV Require Import Base.Bits Base.Val Base.Explore Model.Race Proofs.RaceBase Proofs.RaceProofs.
+From VV Require Import Base.Bits Base.Val Base.Explore Model.Race Proofs.RaceBase Proofs.RaceProofs
+     Gen.GenCtl Model.CtlOps Proofs.CtlRaceProofs.
 Open Scope N_scope.
 
 (* no kick is stranded: whenever nothing can move any more and the ring is started and enabled, no kick is pending -
@@ -45,3 +46,44 @@ Print Assumptions C12_no_new_dispatch_after_reply_partial.
 Theorem C12_no_dispatch_after_reply_refuted : late_witness_b = true.
 Proof. exact late_witness. Qed.
 Print Assumptions C12_no_dispatch_after_reply_refuted.
+
+(* ---- the control programs the race system runs are the REGENERATED handlers of handler.rs (Gen/GenCtl.v), seen through
+   the facts the race model keeps about a ring (started, enabled, kick registered, kick present): in every reachable
+   state, the ring after the handler's state change equals the ring after the program's first micro-operation (where the
+   hold point ctl:after_state sits), and the ring after the whole handler equals the ring after the program's
+   micro-operations before the reply.  A handler that updated epoll before changing the state, dropped the kick
+   descriptor before unregistering it, or skipped the registration update would break these equations. ---- *)
+Theorem C12_programs : 
+  codes_of prog_disable = [M_DIS_STATE; M_UNREG; M_REPLY_DIS] /\ codes_of prog_enable = [M_EN_STATE; M_REG_IF; M_REPLY]
+  /\ codes_of prog_stop = [M_STOP_STATE; M_UNREG; M_DROP_KICK; M_REPLY_STOP]
+  /\ codes_of prog_restart = [M_START_STATE; M_REG_IF; M_REPLY] /\ codes_of prog_reset = [M_DIS_STATE; M_UNREG; M_REPLY_DIS].
+Proof. exact race_programs. Qed.
+Print Assumptions C12_programs.
+
+Theorem C12_disable_program_is_source : forall s0 s, In s0 rinits -> rreach s0 s ->
+  view_of (micros s [M_DIS_STATE]) = vrun false (through_state ctl_set_vring_enable) (view_of s)
+  /\ view_of (micros s [M_DIS_STATE; M_UNREG]) = vrun false ctl_set_vring_enable (view_of s).
+Proof. intros s0 s H0 Hr. exact (race_disable_is_source s (vinv_reachable s0 s H0 Hr)). Qed.
+Print Assumptions C12_disable_program_is_source.
+
+Theorem C12_enable_program_is_source : forall s0 s, In s0 rinits -> rreach s0 s ->
+  view_of (micros s [M_EN_STATE]) = vrun true (through_state ctl_set_vring_enable) (view_of s)
+  /\ view_of (micros s [M_EN_STATE; M_REG_IF]) = vrun true ctl_set_vring_enable (view_of s).
+Proof. intros s0 s H0 Hr. exact (race_enable_is_source s (vinv_reachable s0 s H0 Hr)). Qed.
+Print Assumptions C12_enable_program_is_source.
+
+Theorem C12_stop_program_is_source : forall s0 s, In s0 rinits -> rreach s0 s ->
+  view_of (micros s [M_STOP_STATE]) = vrun false (through_state ctl_get_vring_base) (view_of s)
+  /\ view_of (micros s [M_STOP_STATE; M_UNREG; M_DROP_KICK]) = vrun false ctl_get_vring_base (view_of s).
+Proof. intros s0 s H0 Hr. exact (race_stop_is_source s (vinv_reachable s0 s H0 Hr)). Qed.
+Print Assumptions C12_stop_program_is_source.
+
+Theorem C12_restart_program_is_source : forall s0 s, In s0 rinits -> rreach s0 s ->
+  view_of (micros s [M_START_STATE; M_REG_IF]) = vrun false ctl_set_vring_kick (view_of s).
+Proof. intros s0 s H0 Hr. exact (race_restart_is_source s (vinv_reachable s0 s H0 Hr)). Qed.
+Print Assumptions C12_restart_program_is_source.
+
+Theorem C12_reset_program_is_source : forall s0 s, In s0 rinits -> rreach s0 s ->
+  view_of (micros s [M_DIS_STATE; M_UNREG]) = vrun false ctl_reset_device (view_of s).
+Proof. intros s0 s H0 Hr. exact (race_reset_is_source s (vinv_reachable s0 s H0 Hr)). Qed.
+Print Assumptions C12_reset_program_is_source.
